@@ -436,10 +436,24 @@ def exec_block(p, drv):
                 res['disagreements'].append({'detail': f'regenerated gradient program (Gen.GradOps) differs from the closed-form model by '
                                                        f'{float((gg - gm).abs().max()):.3e} (tolerance {float(tolg):.3e}), kernel {k["kind"]} q={k["q"]}'})
             res.setdefault('dist', {})
+        if 'fval_gen' in m and p['mode'] != 'near':
+            # product / Lpq / sum-power: the `forward_func` closure regenerated from the gradient routine (Gen.FwdOps), run at Float,
+            # against the closed-form predictor of the model and against the real kernel matrix
+            vg = torch.tensor(core.unfl(m['fval_gen']), dtype=torch.float64).reshape(f, nz)
+            vm = torch.tensor(core.unfl(m['fval_model']), dtype=torch.float64).reshape(f, nz)
+            vi = c @ kobj.get_kernel_matrix(x, z, T)
+            tolv = 1e-9 * (c.abs().sum(dim=1, keepdim=True) + 1e-300)
+            if not bool(((vg - vm).abs() <= tolv).all()):
+                res['disagreements'].append({'detail': f'regenerated forward closure (Gen.FwdOps) differs from the closed-form model by '
+                                                       f'{float((vg - vm).abs().max()):.3e}, kernel {k["kind"]} q={k["q"]} mode {p["mode"]}'})
+            if not bool(((vg - vi).abs() <= 1e-6 * (c.abs().sum(dim=1, keepdim=True) + 1e-300)).all()):
+                res['disagreements'].append({'detail': f'regenerated forward closure (Gen.FwdOps) differs from coefs @ get_kernel_matrix by '
+                                                       f'{float((vg - vi).abs().max()):.3e}, kernel {k["kind"]} q={k["q"]} mode {p["mode"]}'})
     nz_grad = bool((gi.abs() > 0).any()) if finite else False
     res['nontrivial'] = [p['seed'], k['kind'], k['q'], p['mode'], p['tm']] if nz_grad else None
     res['dist'] = {'kind': k['kind'], 'q': k['q'], 'mode': p['mode'], 'transform': p['tm'], 'outputs': f,
                    'regenerated_gradient_program': 'compared' if isinstance(m, dict) and 'grads_gen' in m else 'n/a',
+                   'regenerated_forward_closure': 'compared' if isinstance(m, dict) and 'fval_gen' in m and p['mode'] != 'near' else 'n/a',
                    'kind_x_mode': f'{k["kind"]}/{p["mode"]}',
                    'multi_output_autograd': (f >= 2 and k['kind'] in ('prod', 'lpq', 'sumpower')),
                    'q_lt_1_coordinate_coincidence': (k['q'] < 1 and p['mode'] == 'coord'),
